@@ -325,6 +325,8 @@ def run(cx: Cx):
     from .common import include_premises
     include_premises(cx, ['C10'], 'ids reported by the neighbourhood queries are cell ids: same strides as the cell table',
                      only=lambda o: 'id-strides' in o.key or 'id form' in o.message)
+    include_premises(cx, ['C11'], "the row looked up carries the cell's component values only if every cell component stores each cell's "
+                     "own value under that cell's id")
     from .common import check_no_stateful_memo
     check_no_stateful_memo(cx)
 
